@@ -63,7 +63,8 @@ pub fn check_tick(cell: &ReplCell, x: &mut ReplExec) -> Result<(), Violation> {
                     )
                     .feat(format!("comp:{}", ctag_name(ctag))));
                 }
-                if !must && present && cell.oracles.c11_no_resend {
+                // (a value carried by this tick's own update message is not a re-send)
+                if !must && present && cell.oracles.c11_no_resend && acked != tick {
                     return Err(v(
                         "acknowledged-data-resent",
                         format!(
@@ -223,6 +224,12 @@ pub fn cells(tier: Tier) -> Vec<CellPlan> {
         c.env = Env { hold_acks: true, hold_updates: 0, mutations: MutMenu::Full, leftover_choice: true, lossy: false };
         v.push(plan(c, 2, 0.5));
     }
+
+    // a removal and a mutation on one entity in one tick (the mutation travels in the update
+    // message): afterwards the server is as quiet as after any acknowledged mutation
+    let mut c = cells::three_comps("C11", 1);
+    c.oracles = Oracles { c11: true, c11_no_resend: true, c01: true, ..Default::default() };
+    v.push(plan(c, 1, 1.0));
 
     // a mutate message whose application fails on the client (the game's deserialization
     // function refuses a value) is still a received message: it is acknowledged and the server
